@@ -46,6 +46,22 @@ CHECKS = {
             "seeded exploration relating captured gunicorn.access records to what the client end decoded from the wire, over all body paths, all atoms, hostile client data and rejected inputs",
             "record<->response mapping is positional on fault-free connections; failing application calls are outside the statement",
             "deterministic simulation of the connection + wire-derived oracle for log records"),
+    "C03": ("W4-master",
+            "seeded exploration of histories x schedules: the real Arbiter.run() on a simulated kernel under worker deaths, boot failures, TTIN/TTOU/HUP, bursts and signals injected at seeded system-call indices of the master; safety on every event, bounded liveness after the last event, against a reference pool model",
+            "trusts the simulated kernel's POSIX/PEP 475 rules (listed in evidence.assumptions); workers are scripted stubs booted through the real spawn_worker child side + init_process (fork by re-entry on a deep copy)",
+            "deterministic simulation with fault injection: seeded histories and schedules against a reference pool model"),
+    "C11": ("W4-master",
+            "seeded exploration, two-sided: heartbeat patterns (boundary gaps, hang, hang at boot, SIGSTOP, ignore SIGABRT) x timeout values x wall-clock steps against the real murder_workers/kill/reap/respawn; no kill while silence <= timeout, ABRT/KILL/replace within bounded simulated time otherwise",
+            "master side only so far (stub workers implement the heartbeat contract); the worker side (real sync/gthread loops keep notify() gaps < timeout) is checked in the W3 worker world",
+            "deterministic simulation with fault injection on virtual time (timeout scan vs heartbeat patterns)"),
+    "C13": ("W3-worker",
+            "seeded exploration of schedules x histories: the real ThreadWorker.run() and handler threads as baton-scheduled simulated threads over a simulated selector/executor/lock, scripted clients, TERM; invariants on every kernel event, bounded liveness outside faults in two keyed regimes",
+            "trusts the SimSelector/SimExecutor/SimRLock contracts (Appendix D); pre-emption only at simulated system calls and lock/executor/selector operations",
+            "deterministic simulation of threads (baton passing) with seeded scheduling and fault injection"),
+    "C17": ("W5-pidfile",
+            "fault enumeration: seeded operation histories by 2-3 instances checked against a model of the path's content, then one run per system-call index of the last create/rename (crash) and per file-system call (ENOSPC/EACCES) - exhaustive over crash points of that operation",
+            "operations of different instances are atomic w.r.t. each other (the property's own quantifier); rename(2) atomic; pid liveness = kill(pid, 0)",
+            "deterministic simulation with exhaustive crash-point enumeration on a simulated file system"),
 }
 
 NOT_APPLICABLE = [
@@ -53,7 +69,7 @@ NOT_APPLICABLE = [
     {"property_id": "C16", "reason": "pure function of (argv, environment, file contents, defaults) evaluated once at start-up: no concurrency, time, fault or multi-party behaviour (DESIGN.md §5)"},
 ]
 PENDING = {p: "check not built yet (work in progress, see DESIGN.md §11 build order); not claimed until it is"
-           for p in ["C03", "C04", "C10", "C11", "C13", "C14", "C17", "C18", "C20"]}   # id -> reason, for properties whose check is not built yet
+           for p in ["C04", "C10", "C14", "C18", "C20"]}   # id -> reason, for properties whose check is not built yet
 
 
 def main():
